@@ -219,9 +219,35 @@ def c17_plan(run, replay=None):
          "token pools in harness/internal/rt/pools.go; TLC, Json module"], exhaustive=True)
 
 
+# ------------------------------------------------------------------------------------------------ hash
+def c13_plan(run, replay=None):
+    q = run.tier == "quick"
+    run.build_harness()
+    if replay:
+        replay_cases(run, replay, "cases.ndjson")
+    else:
+        for sl in ["ids", "header", "stu", "events", "shift", "vids", "vpos", "vrest", "vtrip"] + ([] if q else ["stu2", "hdr2"]):
+            run.tlc("TripHashMC", "C13_%s.cfg" % sl, "design", workers=4, cases_out="cases.ndjson", timeout=1500)
+    s = run.harness("hash", ["-in", "cases.ndjson", "-out", "obs.ndjson"], timeout=3000)
+    run.load_inputs("obs.ndjson.inputs")
+    run.validate_trace("TripHashObs", "obs.ndjson", s["cases"], timeout=3000)
+    only(run, ["C13."])
+    if not replay:
+        run.floor("distinct_values", run.counters.get("distinct_values", 0), 3500)
+    run.counters["distinct_nontrivial"] = run.counters.get("distinct_values", 0)
+    return run.finish(
+        "trips and vehicles from domain slices (adjacent strings incl. boundary shifts and embedded zero bytes, header "
+        "fields, number of stop time updates, every optional of a stop time update nil / zero / non-zero, events at "
+        "index 1 and 2, vehicle id/position/status fields, a vehicle's trip); each hashed in 5 presentations x 2; the "
+        "partition by real hash input must equal the partition by data",
+        ["strings over a small byte alphabet, numbers small (32-bit TLC integers)",
+         "collisions are searched within the enumerated domain only", "TLC, Json module"], exhaustive=True)
+
+
 ZONES = "nil,UTC,America/New_York,Asia/Kolkata,fixed+0545,Pacific/Auckland,fixed-0330"
 
 PLANS = {
+    "C13": c13_plan,
     "C17": c17_plan,
     "C16": c16_plan,
     "C02": realtime_plan("C02", [("RT_fields.cfg", "RT_fields.cfg", ZONES, 1),
